@@ -139,13 +139,23 @@ def ref_tgt_case(draw, nref=(3, 25), ntgt=(1, 30), geoms=GEOMS, nres_max=1,
     if cls == "near-collinear":
         placement = "near"           # keeps the conditioning of the near-collinear frame inside the tolerance
     tpos = target_geometry(m, rpos, placement, rng)
-    return {"geom": cls, "s": draw(scale_factor()),
+    # the target's coordinates may be held in another dtype (assigned through the public attribute): float32 as many
+    # trajectory readers deliver them, or whole numbers in an integer array
+    tdt = draw(st.sampled_from([None] * 6 + ["float32", "int"])) if cls != "near-collinear" else None
+    if tdt == "float32":
+        tpos = tpos.astype(np.float32).astype(float)
+    elif tdt == "int":
+        tpos = np.round(tpos)                # whole numbers of nm
+    return {"geom": cls, "s": draw(scale_factor()), "tgt_dtype": tdt,
             "ref": gen.with_coords(ref, rpos), "tgt": gen.with_coords(tgt, tpos)}
 
 
 def build_pair(case):
     ref = build_molecule(case["ref"])
     tgt = build_molecule(case["tgt"])
+    tdt = case.get("tgt_dtype")
+    if tdt:
+        tgt.atoms_positions = np.array(case["tgt"]["coords"], dtype=np.float32 if tdt == "float32" else np.int64)
     return ref, tgt
 
 
